@@ -170,14 +170,16 @@ pub fn try_with<R>(f: impl FnOnce(&mut World) -> R) -> Option<R> {
 
 /// Append an event to the trace; returns its logical time.
 pub fn log(conn: u8, k: EvK) -> u64 {
-    with(|w| {
+    // (no world on this thread: the threaded engine keeps its own logs)
+    try_with(|w| {
         w.activity += 1;
         w.trace.push(conn, k)
     })
+    .unwrap_or(0)
 }
 
 pub fn now() -> u64 {
-    with(|w| w.trace.now())
+    try_with(|w| w.trace.now()).unwrap_or(0)
 }
 
 pub fn spawn(name: impl Into<String>, kind: TaskKind, fut: impl Future<Output = ()> + 'static) -> u32 {
